@@ -247,22 +247,34 @@ package state
 //@     invariant held(st.mu) == 1 && $held === upd(old($held), st.mu, 1)
 //@ end
 //@ func (*stateTracker).NewNick
-//@   property C14
+//@   property C14, C12
 //@   attr lockcheck=C14
 //@   requires trkOK(st) && held(st.mu) == 0
 //@   modifies mapsof("map[string]*nick"), mapsof("map[string]*channel"), mapsof("map[*nick]*ChanPrivs"), mapsof("map[*channel]*ChanPrivs"), nick.nick, nick.ident, nick.host, nick.name, channel.topic, $log, $held, $tr
 //@   ensures $held === old($held)
 //@   ensures $trlen == old($trlen) || ($trlen == old($trlen) + 2 && $tr[old($trlen)] == ev("lock", st.mu) && $tr[old($trlen)+1] == ev("unlock", st.mu))
 //@   ensures result == nil || freshNick(result)
+//@   requires [C12] trkShape(st)
+//@   ensures [C12] (n == "" || old(has(st.nicks, n))) ==> result == nil && trkUnchanged(st)
+//@   ensures [C12] !(n == "" || old(has(st.nicks, n))) ==> result != nil && result.Nick == n
+//@        && dom(st.nicks) === setadd(old(dom(st.nicks)), n) && fresh(st.nicks[n]) && st.nicks[n].nick == n
+//@        && dom(st.nicks[n].chans) === emptyset() && dom(st.nicks[n].lookup) === emptyset()
+//@        && (forall k int :: k != sid(n) ==> vals(st.nicks)[k] == old(vals(st.nicks)[k]))
+//@        && dom(st.chans) === old(dom(st.chans)) && vals(st.chans) === old(vals(st.chans)) && st.me == old(st.me)
+//@   ensures [C12] trkShape(st)
 //@ end
 //@ func (*stateTracker).GetNick
-//@   property C14
+//@   property C14, C12
 //@   attr lockcheck=C14
 //@   requires trkOK(st) && held(st.mu) == 0
 //@   modifies mapsof("map[string]*nick"), mapsof("map[string]*channel"), mapsof("map[*nick]*ChanPrivs"), mapsof("map[*channel]*ChanPrivs"), nick.nick, nick.ident, nick.host, nick.name, channel.topic, $log, $held, $tr
 //@   ensures $held === old($held)
 //@   ensures $trlen == old($trlen) || ($trlen == old($trlen) + 2 && $tr[old($trlen)] == ev("lock", st.mu) && $tr[old($trlen)+1] == ev("unlock", st.mu))
 //@   ensures result == nil || freshNick(result)
+//@   requires [C12] trkShape(st)
+//@   ensures [C12] has(st.nicks, n) ==> result != nil && result.Nick == n && result.Ident == st.nicks[n].ident && result.Host == st.nicks[n].host && result.Name == st.nicks[n].name
+//@   ensures [C12] !has(st.nicks, n) ==> result == nil
+//@   ensures [C12] trkUnchanged(st)
 //@ end
 //@ func (*stateTracker).ReNick
 //@   property C14
@@ -285,13 +297,21 @@ package state
 //@   ensures result == nil || freshNick(result)
 //@ end
 //@ func (*stateTracker).NickInfo
-//@   property C14
+//@   property C14, C12
 //@   attr lockcheck=C14
 //@   requires trkOK(st) && held(st.mu) == 0
 //@   modifies mapsof("map[string]*nick"), mapsof("map[string]*channel"), mapsof("map[*nick]*ChanPrivs"), mapsof("map[*channel]*ChanPrivs"), nick.nick, nick.ident, nick.host, nick.name, channel.topic, $log, $held, $tr
 //@   ensures $held === old($held)
 //@   ensures $trlen == old($trlen) || ($trlen == old($trlen) + 2 && $tr[old($trlen)] == ev("lock", st.mu) && $tr[old($trlen)+1] == ev("unlock", st.mu))
 //@   ensures result == nil || freshNick(result)
+//@   requires [C12] trkShape(st)
+//@   ensures [C12] !has(st.nicks, n) ==> result == nil && trkUnchanged(st)
+//@   ensures [C12] has(st.nicks, n) ==> result != nil && result.Nick == n && result.Ident == ident && result.Host == host && result.Name == name
+//@        && st.nicks[n].ident == ident && st.nicks[n].host == host && st.nicks[n].name == name
+//@        && (forall o *nick :: o != st.nicks[n] ==> o.ident == old(o.ident) && o.host == old(o.host) && o.name == old(o.name))
+//@        && (forall o *nick :: o.nick == old(o.nick) && o.chans == old(o.chans) && o.lookup == old(o.lookup))
+//@        && dom(st.nicks) === old(dom(st.nicks)) && vals(st.nicks) === old(vals(st.nicks))
+//@   ensures [C12] trkShape(st)
 //@ end
 //@ func (*stateTracker).NickModes
 //@   property C14
@@ -348,13 +368,15 @@ package state
 //@   ensures result == nil || freshChannel(result)
 //@ end
 //@ func (*stateTracker).Me
-//@   property C14
+//@   property C14, C12
 //@   attr lockcheck=C14
 //@   requires trkOK(st) && held(st.mu) == 0
 //@   modifies mapsof("map[string]*nick"), mapsof("map[string]*channel"), mapsof("map[*nick]*ChanPrivs"), mapsof("map[*channel]*ChanPrivs"), nick.nick, nick.ident, nick.host, nick.name, channel.topic, $log, $held, $tr
 //@   ensures $held === old($held)
 //@   ensures $trlen == old($trlen) || ($trlen == old($trlen) + 2 && $tr[old($trlen)] == ev("lock", st.mu) && $tr[old($trlen)+1] == ev("unlock", st.mu))
 //@   ensures result == nil || freshNick(result)
+//@   requires [C12] trkShape(st)
+//@   ensures [C12] result != nil && result.Nick == st.me.nick && trkUnchanged(st)
 //@ end
 //@ func (*stateTracker).IsOn
 //@   property C14
@@ -383,3 +405,34 @@ package state
 //@   ensures $held === old($held)
 //@   ensures $trlen == old($trlen) + 2 && $tr[old($trlen)] == ev("lock", st.mu) && $tr[old($trlen)+1] == ev("unlock", st.mu)
 //@ end
+
+// ---------------------------------------------------------------------------
+// C12: the tracker as a relational model. The concrete state *is* the model
+// (a name-indexed set of nicks, a name-indexed set of channels, a membership
+// relation nk.chans / ch.nicks carrying one shared ChanPrivs per pair) plus
+// redundant indexes; trkShape is the part of the representation invariant
+// the per-method clauses below need.
+
+//@ pred trkShape(st *stateTracker) := st != nil && st.nicks != nil && st.chans != nil && st.me != nil
+//@     && (forall k int :: has(dom(st.nicks), k) ==> vals(st.nicks)[k] != nil && sid(vals(st.nicks)[k].nick) == k)
+//@     && (forall k int :: has(dom(st.chans), k) ==> vals(st.chans)[k] != nil && sid(vals(st.chans)[k].name) == k)
+//@     && has(st.nicks, st.me.nick) && st.nicks[st.me.nick] == st.me
+
+// nothing about any tracked nick / channel object or any index changes
+//@ pred trkUnchanged(st *stateTracker) := dom(st.nicks) === old(dom(st.nicks)) && vals(st.nicks) === old(vals(st.nicks))
+//@     && dom(st.chans) === old(dom(st.chans)) && vals(st.chans) === old(vals(st.chans)) && st.me == old(st.me)
+//@     && (forall n *nick :: n.nick == old(n.nick) && n.ident == old(n.ident) && n.host == old(n.host) && n.name == old(n.name)
+//@            && n.chans == old(n.chans) && n.lookup == old(n.lookup) && n.modes == old(n.modes))
+//@     && (forall c *channel :: c.name == old(c.name) && c.topic == old(c.topic) && c.nicks == old(c.nicks) && c.lookup == old(c.lookup) && c.modes == old(c.modes))
+//@     && (forall m map[*channel]*ChanPrivs :: dom(m) === old(dom(m)) && vals(m) === old(vals(m)))
+//@     && (forall m map[*nick]*ChanPrivs :: dom(m) === old(dom(m)) && vals(m) === old(vals(m)))
+//@     && (forall m map[string]*channel :: dom(m) === old(dom(m)) && vals(m) === old(vals(m)))
+//@     && (forall m map[string]*nick :: m != st.nicks ==> dom(m) === old(dom(m)) && vals(m) === old(vals(m)))
+
+//@ func NewTracker
+//@   property C12
+//@   safety C12
+//@   ensures result != nil && fresh(result) && trkShape(result) && held(result.mu) == 0
+//@   ensures result.me.nick == mynick && dom(result.chans) === emptyset() && dom(result.nicks) === setadd(emptyset(), mynick)
+//@ end
+
